@@ -367,6 +367,14 @@ func (a *TokAPI) body(ctx context.Context, tok string, plan Plan) (Result, error
 		panic(make(chan struct{}))
 	case "nan":
 		panic(math.NaN())
+	case "ctrlbytes":
+		// a text as it would come from formatting a corrupt binary header: control bytes, DEL, a tag-space rune
+		panic("boom-\x01\a\v\x1b\x7f\U000e0001-" + tok)
+	case "badutf8":
+		panic(fmt.Errorf("boom-\xff\xfe\xc0\xaf-%s", tok))
+	case "longnoblank":
+		// e.g. a minified document or a hex dump: long, and without a single blank
+		panic(strings.Repeat("0123456789abcdef", 200) + "-" + tok)
 	case "nilstringer":
 		var n *nilStringer
 		panic(n)
